@@ -116,7 +116,7 @@ class ClusteringFlowProposal(FlowProposal):
             filename=os.path.join(output, "x_comparison.png"),
         )
 
-        if self.parameters_to_rescale:
+        if self.prime_parameters != self.parameters:
             plot_1d_comparison(
                 self.training_data_prime,
                 x_prime_gen,
